@@ -18,7 +18,8 @@ import GoLucene.Proofs.Laws
     Each numeric clause is NECESSARY (refutations, `decide +kernel`), all inside the recorded finding classes:
       render_needs_floatExp        a:1000000.0            "a" = 1e+06                     → "a" = 1000000          K-json-float-exp
       render_needs_boundExp        a:[1000000.0 TO 5]     >= 1000000.00 AND <= 5.00       → >= 1000000 AND <= 5    K-json-float-exp
-      render_needs_starExp         a:[* TO 1000000.0]     "a" BETWEEN '*' AND 1e+06       → "a" <= 1000000         K-json-float-exp
+      render_needs_starExp         a:[* TO 1000000.0]     "a" <= 1000000.00               → "a" <= 1000000         K-json-float-exp
+                                   (before fix F12 of `toFloats` the left text was "a" BETWEEN '*' AND 1e+06)
       render_needs_noNegZero       a:-0.0                 "a" = -0                        → "a" = 0                K-negzero
       render_needs_noNegZeroBound  a:[-0.0 TO 2.5]        >= -0.00                        → >= 0.00                K-negzero
       render_needs_noBigIntBound   a:[1 TO 2^53+1]        <= 9007199254740993             → <= 9007199254740992    K-json-bigint-bound
@@ -1187,11 +1188,12 @@ theorem render_needs_boundExp :
 def cexStarExp : Expr :=
   .mk colA .range (.bound (.expr (mkLeaf (.prim (.str (b "*"))) .wild)) (.expr (fltLeaf (F64.ofInt 1000000))) true) F64.one 1
 
-/-- K-json-float-exp next to an unbounded end: before, `rang` can parse `1e+06` neither as int nor (because the other
-    end is `'*'`, not `*`) as float and falls through to BETWEEN with the literal `'*'`; after, it is a plain `<=` -/
+/-- K-json-float-exp next to an unbounded end: before decoding, `rang` cannot parse `1e+06` as an int, parses it as
+    a float (since fix F12 `toFloats` accepts the open end `'*'`) and prints `%.2f`; after decoding the bound is the
+    int 1000000 and `rang` prints `%d`.  (Before fix F12 the first text was `"a" BETWEEN '*' AND 1e+06`.) -/
 theorem render_needs_starExp :
     semShapeT cexStarExp = true ∧ validateExpr cexStarExp = true ∧ printNumOK cexStarExp = false ∧
-    render pgFns cexStarExp = .ok (b "\"a\" BETWEEN '*' AND 1e+06") ∧
+    render pgFns cexStarExp = .ok (b "\"a\" <= 1000000.00") ∧
     render pgFns (retype cexStarExp) = .ok (b "\"a\" <= 1000000") ∧
     sqlOf (renderParam pgFns cexStarExp) = .ok (b "\"a\" <= ?") ∧
     sqlOf (renderParam pgFns (retype cexStarExp)) = .ok (b "\"a\" <= ?") := by decide +kernel
